@@ -1,6 +1,6 @@
 """C05 map family: element-wise, ordered, bounded, lazy, work-conserving."""
 from asyncio_taskpool import TaskPool
-from engine.prog import Interp, act, drive, parts_product, select
+from engine.prog import Interp, act, drive, parts_product, refine, select
 from engine.spec import Family
 from engine.world import Excluded, World
 
@@ -112,7 +112,7 @@ def families(tier):
         name="order", fn="tpl_map", params=P,
         pre=["size >= 0", "conc >= 1", "0 <= stars <= 2", "0 <= L <= %d" % lmax, "-1 <= bad < L or bad == -1", "bad >= -1",
              "cb == 1", "x2 == %d" % NOP, "a2 == 0", "x3 == %d" % NOP, "a3 == 0", "t >= 0", "0 <= bk <= 1", "bk == 0 or (stars >= 1 and bad >= 0)", "-1 <= emp <= 2", "emp == -1 or (stars >= 1 and bad == -1 and emp < L)"],
-        parts=parts_product(stars=range(3), L=range(lmax + 1)),
+        parts=refine(parts_product(stars=range(3), L=range(lmax + 1)), ["L == %d" % lmax], "bad", range(-1, lmax)),
         twin_pre=["stars == 1", "L == 3"], twin_args=[2, 2, 1, 3, 1, 1, NOP, 0, NOP, 0, 9, 0, -1])]
     fams.append(Family(
         name="occupied", fn="tpl_occupied", params=["size", "occ", "conc", "stars", "L", "x2", "a2", "x3", "a3"],
